@@ -7,6 +7,8 @@ use crate::core::Tier;
 pub const TOKENS: &[&str] = &[
     "a", "b c", " ", "\n", "\n\n", "# ", "## ", "- ", "* ", "1. ", "1) ", "> ", "  ", "    ", "```\n", "~~~\n", "---\n",
     "===\n", "*", "`", "\\", "|", "|-|\n", "[a](b)", "[[b]]", "<x>", "é", "\r\n",
+    // links whose destination names no note: empty, a directory, the root
+    "[x]()", "[x](..)", "[x](/)",
 ];
 
 /// all strings of 0..=l tokens, shortest first
@@ -421,6 +423,60 @@ pub fn ordered_list_docs(ns: &[usize], emit: &mut dyn FnMut(&str)) {
     }
 }
 
+/// containers with 1..=5 blocks inside and 0..=2 blocks behind them: the exhaustive forests stop at
+/// a handful of nodes, so "one container with many children" is its own family. Containers: quote,
+/// bullet item, ordered item, nested item, an item that starts with a list (merged into it, with
+/// the blocks in the last inner item and the tail inside the outer item), quote in an item, item in
+/// a quote. Children are paragraphs; variant k replaces the k-th child by a code block, a heading
+/// or a nested quote.
+pub fn wide_container_docs(emit: &mut dyn FnMut(&str)) {
+    // (prefix of the first line, prefix of continuation lines, prefix for the tail blocks)
+    let containers: &[(&str, &str, &str, &str)] = &[
+        ("quote", "> ", "> ", ""),
+        ("item", "- ", "  ", ""),
+        ("ordered-item", "1. ", "   ", ""),
+        ("nested-item", "- outer\n  - ", "    ", "  "),
+        ("merged-item", "- - ", "    ", "  "),
+        ("merged-ordered", "1. 1. ", "      ", "   "),
+        ("quote-in-item", "- lead\n\n  > ", "  > ", "  "),
+        ("item-in-quote", "> - ", ">   ", "> "),
+    ];
+    for (_, first, cont, tail_prefix) in containers {
+        for n in 1..=5usize {
+            for variant in ["plain", "code", "heading", "quote"] {
+                for tail in 0..=2usize {
+                    if variant != "plain" && n < 2 {
+                        continue;
+                    }
+                    let mut s = String::new();
+                    for i in 0..n {
+                        let lead = if i == 0 { first.to_string() } else { cont.to_string() };
+                        let blank = cont.trim_end().to_string();
+                        let special = variant != "plain" && i == 1;
+                        if i > 0 {
+                            s.push_str(&format!("{}\n", blank));
+                        }
+                        if special && variant == "code" {
+                            s.push_str(&format!("{}```\n{}code{}\n{}```\n", lead, cont, i, cont));
+                        } else if special && variant == "heading" {
+                            s.push_str(&format!("{}## head{}\n", lead, i));
+                        } else if special && variant == "quote" {
+                            s.push_str(&format!("{}> quoted{}\n", lead, i));
+                        } else {
+                            s.push_str(&format!("{}child{}\n", lead, i));
+                        }
+                    }
+                    for t in 0..tail {
+                        let blank = tail_prefix.trim_end().to_string();
+                        s.push_str(&format!("{}\n{}tail{}\n", blank, tail_prefix, t));
+                    }
+                    emit(&s);
+                }
+            }
+        }
+    }
+}
+
 pub const SCALE_FAMILIES: &[&str] = &[
     "paragraphs", "items", "ordered-items", "headings", "nested-headings", "table-rows", "links", "refs", "nested-quotes",
     "nested-lists", "nested-emphasis", "long-line", "long-words", "rules", "code-blocks",
@@ -432,11 +488,13 @@ pub fn doc_space(tier: Tier, emit: &mut dyn FnMut(&str)) {
             token_strings(3, emit);
             block_docs(3, 2, 2, true, emit);
             inline_docs(1, false, emit);
+            wide_container_docs(emit);
         }
         Tier::Thorough => {
             token_strings(4, emit);
             block_docs(4, 3, 3, true, emit);
             inline_docs(2, true, emit);
+            wide_container_docs(emit);
         }
     }
 }
